@@ -46,7 +46,7 @@ ASSUMPTIONS = ['numpy polynomial evaluation in the documented nutils_poly coeffi
                'level sets of the trimmed topologies keep cuts away from vertices; graded knot values are (0,1,3,7,15)',
                'linear independence is judged by singular values > 1e-8 relative; equality tolerance 1e-9 relative',
                'hierarchical bases with non-default knot vectors and trimming after hierarchical refinement (documented as possibly dependent) are not enumerated']
-BUDGET_S = {'quick': 1800, 'thorough': 14400}   # guard for a heavily shared machine; an idle 16-core box needs ~2 / ~12 minutes
+BUDGET_S = {'quick': 3600, 'thorough': 14400}   # guard for a heavily shared machine; an idle 16-core box needs ~2 / ~12 minutes
 
 GRADED = [0, 1, 3, 7, 15, 31]
 
